@@ -440,9 +440,11 @@ func TestC16(t *testing.T) {
 	}
 	rec := ev.New("C16", "exploration", "a seeded mixed workload is executed once while its transaction bytes, block boundaries and environment actions are recorded with tx result digests, app hashes and per-store dump hashes; the tape is replayed on R fresh in-process instances sequentially, on R instances concurrently (race-detector build), and in a fresh child process with GOMAXPROCS=1; any difference in a tx result digest, app hash or store dump is a violation. distinct = (universe, variant, replay mode, tape length bucket)")
 	defer finish(t, rec)
-	workloads := ev.Pick(1, 3)
-	R := ev.Pick(2, 6)
-	steps := ev.Pick(300, 2500)
+	// thorough sizes are bounded by the race detector's cost: a shard replays every tape on R instances three ways
+	// (measured: the quick sizes take about 2.5 minutes per shard; these take about 40)
+	workloads := ev.Pick(1, 2)
+	R := ev.Pick(2, 4)
+	steps := ev.Pick(300, 800)
 	var names []string
 	for n := range c16Recorders {
 		names = append(names, n)
